@@ -487,24 +487,48 @@ def gen_program(seed, shard, index):
         O.name = f"o{len(objs)}"
         objs.append(O)
         conts.append((O, cont, meta))
-    lines = ["import verif_geom as G"]
-    lines += [o.source() for o in objs]
-    lines += [
-        "def _op_intersects(a, b):",
-        "    return a intersects b",
-        "def _op_in(a, r):",
-        "    return a in r",
-        "param op_intersects = _op_intersects",
-        "param op_in = _op_in",
+    # The program text is constant (the pegen parser needs ~70 ms per `new` line); the per-object data are read
+    # from verif_geom.  Every object is still created by the compiled `new Object ...` expression.
+    from scenic.core.distributions import Range
+
+    args = []
+    for o in objs:
+        x, y, z = o.pos
+        w, l, h = o.dims
+        if o.mode == "sampled_pos":
+            x = Range(x, x)
+        if o.mode == "sampled_dims":
+            w = Range(w, w)
+        args.append((o.orient_style, (x, y, z), o.ypr, o.spec.make_shape(), w, l, h))
+    gg.registry.ARGS = args
+    index = {o.name: i for i, o in enumerate(objs)}
+    gg.registry.FIXED_PAIRS = [
+        (f"pi_{A.name}", index[A.name], index[B.name]) for k, (A, B, _) in enumerate(pairs) if A.mode == "fixed" and B.mode == "fixed" and k % 2 == 0
     ]
-    # operators evaluated inside the program on fixed objects (compile time)
-    for k, (A, B, _) in enumerate(pairs):
-        if A.mode == "fixed" and B.mode == "fixed" and k % 2 == 0:
-            lines.append(f"param pi_{A.name} = ({A.name} intersects {B.name})")
-    for k, (O, cont, _) in enumerate(conts):
-        if O.mode == "fixed":
-            lines.append(f"param pc_{O.name} = ({O.name} in G.region({cont['rid']}))")
-    return {"source": "\n".join(lines) + "\n", "objs": objs, "pairs": pairs, "conts": conts}
+    gg.registry.FIXED_CONTS = [(f"pc_{O.name}", index[O.name], cont["rid"]) for (O, cont, _) in conts if O.mode == "fixed"]
+    explicit = ["import verif_geom as G"] + [o.source() for o in objs]
+    explicit += [f"param {k} = (o{i} intersects o{j})" for k, i, j in gg.registry.FIXED_PAIRS]
+    explicit += [f"param {k} = (o{i} in G.region({r}))" for k, i, r in gg.registry.FIXED_CONTS]
+    return {"source": PROGRAM, "explicit": "\n".join(explicit) + "\n", "objs": objs, "pairs": pairs, "conts": conts}
+
+
+PROGRAM = """
+import verif_geom as G
+def _mk_facing(p, f, s, w, l, h):
+    return new Object at p, facing f, with shape s, with width w, with length l, with height h, with allowCollisions True, with requireVisible False
+def _mk_with(p, f, s, w, l, h):
+    return new Object at p, with yaw f[0], with pitch f[1], with roll f[2], with shape s, with width w, with length l, with height h, with allowCollisions True, with requireVisible False
+objs = [(_mk_facing if a[0] == 'facing' else _mk_with)(a[1], a[2], a[3], a[4], a[5], a[6]) for a in G.ARGS]
+def _op_intersects(a, b):
+    return a intersects b
+def _op_in(a, r):
+    return a in r
+param op_intersects = _op_intersects
+param op_in = _op_in
+param pi = {k: (objs[i] intersects objs[j]) for (k, i, j) in G.FIXED_PAIRS}
+param pc = {k: (objs[i] in G.region(r)) for (k, i, r) in G.FIXED_CONTS}
+"""
+
 
 
 # ---------------------------------------------------------------------------------------------
@@ -545,7 +569,7 @@ def run_program(seed, shard, index, tr, res, bump, only_case=None):
         return
     bump("programs")
     if len(res["samples"]) < 1:
-        res["samples"].append({"program": prog["source"][:3000], "pairs": len(prog["pairs"]), "containments": len(prog["conts"])})
+        res["samples"].append({"program_equivalent_explicit_form": prog["explicit"][:3000], "program_as_run": prog["source"], "pairs": len(prog["pairs"]), "containments": len(prog["conts"])})
     byname = {}
     names = [o.name for o in prog["objs"]]
     if len(scene.objects) != len(names):
@@ -623,10 +647,10 @@ def run_program(seed, shard, index, tr, res, bump, only_case=None):
                 pass  # already reported above through the oracle
         # program-level operator result on fixed objects
         pn = f"pi_{A.name}"
-        if pn in scene.params and truth is not None:
+        if pn in scene.params["pi"] and truth is not None:
             bump("operator_in_program")
-            if bool(scene.params[pn]) != truth:
-                viol(case, f"`{A.name} intersects {B.name}` evaluated in the program = {scene.params[pn]} but overlap={truth}", desc)
+            if bool(scene.params["pi"][pn]) != truth:
+                viol(case, f"`{A.name} intersects {B.name}` evaluated in the program = {scene.params['pi'][pn]} but overlap={truth}", desc)
         # minimum distance
         d, ed, evd = _exits(tr, lambda: a.minimumDistanceTo(b))
         count_exits(evd)
@@ -700,10 +724,10 @@ def run_program(seed, shard, index, tr, res, bump, only_case=None):
             bump("disagreements")
             viol(case, f"[{cont['kind']}:{type(reg).__name__}] {O.spec.kind} containsObject = {bool(r)} but exact geometry says contained={truth} exits={exits}", desc)
         pn = f"pc_{O.name}"
-        if pn in scene.params and truth is not None:
+        if pn in scene.params["pc"] and truth is not None:
             bump("operator_in_program")
-            if bool(scene.params[pn]) != truth:
-                viol(case, f"`{O.name} in region` evaluated in the program = {scene.params[pn]} but contained={truth}", desc)
+            if bool(scene.params["pc"][pn]) != truth:
+                viol(case, f"`{O.name} in region` evaluated in the program = {scene.params['pc'][pn]} but contained={truth}", desc)
         # object intersects region (leaf regions only)
         if cont["tree"][0] in ("vol", "foot"):
             ot = go.tree_overlaps(cont["tree"], Ow)
